@@ -283,6 +283,25 @@ pub fn random_req(wd: &mut World) -> Req {
     } else {
         vec![]
     };
+    // directed follow-up of a freshly mined wallet shielding transaction: everything the account has,
+    // under a policy whose two depths are far apart (the shielded note is deep enough by itself within
+    // a block or two, its coins are not for several more)
+    let (kind, account, pol, lock_req, pools) = match wd.followup {
+        Some((a, _, src)) => (
+            Kind::SendMax,
+            a,
+            // the untrusted depth is chosen a few blocks beyond what the newest shielded coin has now
+            ConfPol {
+                trusted: rng.gen_range(1..=2),
+                untrusted: (wd.sim.tip_height() + 1).saturating_sub(src).max(1) + rng.gen_range(1..=4),
+                zero_conf_shielding: pol.zero_conf_shielding,
+            },
+            None,
+            crate::ALL_POOLS.to_vec(),
+        ),
+        None => (kind, account, pol, lock_req, pools),
+    };
+    let transparent = if wd.followup.is_some() { 0 } else { transparent };
     Req {
         kind,
         account,
